@@ -424,7 +424,100 @@ func checkC14(c *core.Ctx) error {
 	for _, e := range scalarDistTable {
 		checkDistEntry(c, p, d, e)
 	}
+	checkWrappers(c, p, d)
 	return nil
+}
+
+// checkWrappers (R6): the wrapped distributions apply the change of variables. The wrapper is built around a symbolic
+// normal distribution and its LogPdf is compared with the density of the transformed variable:
+//   PdfLogTransform(f, c): X = log(Y + c) ~ f  =>  log f_Y(y) = log f(log(y + c)) - log(y + c), -Inf for y < 0
+//   PdfTranslation(f, c):  X = Y + c ~ f       =>  log f_Y(y) = log f(y + c)
+func checkWrappers(c *core.Ctx, p *packages.Package, d *declIndex) {
+	var normal *distEntry
+	for i := range scalarDistTable {
+		if scalarDistTable[i].T == "NormalDistribution" {
+			normal = &scalarDistTable[i]
+		}
+	}
+	nctor := findFuncDecl(p, "NewNormalDistribution")
+	if normal == nil || nctor == nil {
+		c.Unknown("C14.R6", "statistics/scalarDistribution wrappers", "inner family available", 0, "normal distribution not found")
+		return
+	}
+	inner, _, und := runConstructor(p, d, nctor)
+	if und != nil || len(inner) == 0 {
+		c.Unknown("C14.R6", "statistics/scalarDistribution wrappers", "inner family interpreted", nctor.Pos(), "constructor of the inner family could not be interpreted")
+		return
+	}
+	P := map[string]*sym.Term{"mu": sym.Sym("mu"), "sigma": sym.Sym("sigma")}
+	f := normal.variants[0].formula
+	x := sym.Sym("x")
+	cc := sym.Sym("pseudocount")
+	type wrap struct {
+		T       string
+		want    *sym.Term
+		support []string
+	}
+	z := ln(sym.Add(x, cc))
+	for _, w := range []wrap{
+		{"PdfLogTransform", sym.Sub(f(P, z), z), []string{"!lt(x, 0)"}},
+		{"PdfTranslation", f(P, sym.Add(x, cc)), nil},
+	} {
+		cons := "statistics/scalarDistribution." + w.T
+		ctor := findFuncDecl(p, "New"+w.T)
+		lp := findMethodDecl(p, w.T, "LogPdf")
+		if ctor == nil || lp == nil {
+			c.Unknown("C14.R6", cons, "wrapper found", 0, "constructor or LogPdf not found")
+			continue
+		}
+		cfg := vn.Config{Pkg: p, TypeName: "Real64", Spec: distSpec, InlineOps: inlineOps, Decl: d.find, ParamNames: true, MaxDepth: 6,
+			ParamValues: map[string]vn.Value{"scalarPdf": vn.DeepCopy(inner[0].obj, nil)}}
+		paths, u := vn.Run(cfg, ctor)
+		if u != nil {
+			c.Unknown("C14.R6", cons, "wrapper constructor interpreted", u.Pos, "left the interpreter's idiom set: "+u.Msg)
+			continue
+		}
+		var obj *vn.StructVal
+		for _, pa := range paths {
+			if t, ok := pa.Ret.(vn.Tuple); ok && len(t) == 2 {
+				if o, isObj := t[0].(*vn.StructVal); isObj {
+					if _, isErr := t[1].(*vn.ErrVal); !isErr {
+						obj = o
+					}
+				}
+			}
+		}
+		if obj == nil {
+			c.Unknown("C14.R6", cons, "wrapper constructor has a success path", ctor.Pos(), "no success path")
+			continue
+		}
+		mps, u := runMethod(p, d, lp, obj)
+		if u != nil {
+			c.Unknown("C14.R6", cons, "wrapper LogPdf interpreted", u.Pos, "left the interpreter's idiom set: "+u.Msg)
+			continue
+		}
+		nval := 0
+		for _, mp := range mps {
+			if mp.panics || mp.result == nil {
+				continue
+			}
+			if _, isErr := mp.ret.(*vn.ErrVal); isErr {
+				continue
+			}
+			if mp.result.String() == "-Inf" {
+				continue
+			}
+			nval++
+			atoms := condAtoms(mp.condvs)
+			for _, sp := range w.support {
+				c.Check(atoms[sp], "C14.R2", cons, "value path carries "+sp, lp.Pos(), "the wrapper returns a finite value on the path ["+mp.conds+"] without requiring "+sp)
+			}
+			eq := sym.Equal(mp.result, w.want) || sym.Equal(sym.LogExpand(mp.result), sym.LogExpand(w.want))
+			c.Check(eq, "C14.R6", cons, "LogPdf applies the change of variables (inner family: normal) ["+shortConds(mp.conds)+"]", lp.Pos(),
+				"the wrapper evaluates to "+mp.result.String()+" but the log-density of the transformed variable is "+w.want.String())
+		}
+		c.Check(nval > 0, "C14.R6", cons, "wrapper LogPdf has a value-returning path", lp.Pos(), "no value-returning path")
+	}
 }
 
 func condAtoms(cs []vn.CondV) map[string]bool {
